@@ -80,6 +80,8 @@ func New(h host.Host, options ...Option) (*DHT, error)
 
 func (dht *DHT) Close() error
   props C14
+  # (an instance built by New holds both DHTs)
+  requires dht.WAN != nil && dht.LAN != nil
   ghostvar $w bool = false
   ghostvar $l bool = false
   modifies *
